@@ -357,7 +357,7 @@ def bounded(tier, seed):
     utc = timezone.utc
     years = [1900, 1970, 1999, 2000, 2001, 2100]
     mds = [(1, 1), (2, 28), (3, 1), (12, 31)]
-    offsets = [0, 0.5, 1, 30, 365, 366, 36524, 100000.0]
+    offsets = [-36524.25, -366, -1, -0.5, 0, 0.5, 1, 30, 365, 366, 36524, 100000.0]      # before and after the reference date
     units = ['days', 'hours', 'minutes', 'seconds']
     stdcals = ['standard', 'gregorian', 'proleptic_gregorian', None]
     if tier == 'quick':
@@ -420,6 +420,24 @@ def bounded(tier, seed):
                                 return 'offset %r: getTimes %r, cftime %r' % (o, ge, ee)
                         return None
                     run.case('C12:CF-%s:%s' % ('365-day' if cal in ('noleap', '365_day') else '366-day', unit), (unitstr, cal), t)
+    # the part of the 365-day branch that IS exact on the unchanged tree (the known findings above concern the time of day, other units
+    # and references that are not 1 January): whole days counted from a 1 January, before and after it
+    for cal in ('noleap', '365_day'):
+        for Y in ((1990, 2001, 2024) if tier == 'quick' else (1970, 1990, 2000, 2001, 2024, 2068)):
+            unitstr = 'days since %04d-01-01 00:00:00' % Y
+            offs = sorted(set(list(range(-40000, 40001, 1237 if tier == 'quick' else 97)) + [-731, -730, -729, -366, -365, -364, -2, -1, 0, 1, 58, 59, 364, 365, 366, 730]))
+            f = mkfile([float(o) for o in offs], unitstr, cal)
+
+            def t(f=f, unitstr=unitstr, cal=cal, offs=offs):
+                got = f.getTimes()
+                exp = cftime.num2date(np.array(offs, 'd'), unitstr, calendar=cal)
+                for g, e, o in zip(got, exp, offs):
+                    ge = (g.year, g.month, g.day, g.hour, g.minute, g.second)
+                    ee = (e.year, e.month, e.day, e.hour, e.minute, e.second)
+                    if ge != ee:
+                        return 'offset %r days: getTimes %r, cftime %r' % (o, ge, ee)
+                return None
+            run.case('C12:CF-365-day:whole days before and after a 1 January reference', (unitstr, cal), t)
     # IOAPI flags and attributes vs independent julian arithmetic
     def jul(yyyyjjj, hhmmss):
         return datetime(yyyyjjj // 1000, 1, 1, tzinfo=utc) + timedelta(days=yyyyjjj % 1000 - 1, hours=hhmmss // 10000,
